@@ -81,9 +81,16 @@ def _examine(spec: Spec, cfg: dict, how: str, hist, cont):
         cp = make_copy(how, orig, spec, cfg)
     except Exception as e:  # noqa: BLE001
         return bad(f"C09|{spec.name}|{how}|copy-raises", f"{spec.name}: {how} raised {e!r}", check="copy")
+    # The recorded windowed findings are "the ring-buffer cursor is a plain attribute, so a restored instance has it back at its
+    # construction default 0".  A restore that leaves the cursor anywhere else and still differs is another defect (e.g. an override
+    # that re-derives the cursor wrongly) and gets its own signature, so that the recorded finding cannot mask it.
+    cur_o, cur_c = getattr(orig, "next_inserted", None), getattr(cp, "next_inserted", None)
+    differs = "differs-after-restore"
+    if how == "load_state_dict" and isinstance(cur_c, int) and cur_c != 0 and cur_c != cur_o:
+        differs = "cursor-restored-to-a-wrong-slot"
     o0, c0 = observe(orig), observe(cp)
     if not same_obs(o0, c0, 0.0 if how != "load_state_dict" else 0.0):
-        return bad(f"C09|{spec.name}|{how}|differs-after-restore",
+        return bad(f"C09|{spec.name}|{how}|{differs}",
                    f"{spec.name}{public_cfg(cfg)}: compute() right after {how}: original {obs_json(o0)}, copy {obs_json(c0)}",
                    check="compute-after-restore")
     # independence: run the continuation on the copy first, the original must not move
@@ -95,7 +102,7 @@ def _examine(spec: Spec, cfg: dict, how: str, hist, cont):
     for k, op in enumerate(cont):
         ro = apply_op(orig, op, spec, cfg)
         if not same_step(ro, cres[k], 0.0):
-            return bad(f"C09|{spec.name}|{how}|differs-after-restore",
+            return bad(f"C09|{spec.name}|{how}|{differs}",
                        f"{spec.name}{public_cfg(cfg)}: step {k} of the continuation after {how}: original {ro if ro[0] != 'o' else obs_json(ro[1])}, copy {cres[k] if cres[k][0] != 'o' else obs_json(cres[k][1])}",
                        check="continuation", failed_step=k)
     return None, nupd
@@ -134,11 +141,38 @@ def sweep(rep, rng, reps, deadline, all_prefixes):
                 one(rep, rng, spec, cfg0, all_prefixes)
 
 
+def windowed_after_merge(rep: Report, rng: Rng):
+    """directed stream: a windowed metric whose target has WRAPPED (more updates than the window) absorbs a source, is then
+    checkpointed through state_dict()/load_state_dict() (and the other copy methods) and continued — the cursor after a merge is
+    `sum of the live leads mod N`, not `total_updates mod N`, so a restore that re-derives it from the counters is wrong only here."""
+    for spec in SPECS:
+        if spec.kind != "window":
+            continue
+        for cfg0 in spec.configs:
+            cfg = fresh_cfg(cfg0)
+            win = cfg.get("max_num_updates") or cfg.get("max_num_samples") or 0
+            if not win:
+                continue
+            for extra in (1, 2, win + 1):
+                for nsrc in (1, 2):
+                    ops = [("u", spec.gen(rng, cfg, rng.choice(spec.sizes))) for _ in range(win + extra)]
+                    ops.append(("m", [[spec.gen(rng, cfg, rng.choice(spec.sizes)) for _ in range(rng.randint(1, 2))] for _ in range(nsrc)]))
+                    cont = random_ops(rng, spec, cfg, 2 * win + 2, allow_reset=False, allow_merge=False) + [("o",)]
+                    for how in HOW:
+                        v, nupd = _examine(spec, cfg, how, ops, cont)
+                        rep.count(f"how:{how}"); rep.count("stream:windowed-after-merge")
+                        rep.case(nontrivial_key=(spec.name, repr(public_cfg(cfg)), how, ckey(ops), ckey(cont)))
+                        if v is not None:
+                            rep.violation(*v)
+
+
 def run(rep: Report):
+    windowed_after_merge(rep, Rng(rep.seed * 1000003 + 77))
     sweep(rep, Rng(rep.seed * 1000003 + 9), 3 if rep.tier == "quick" else 12, time.time() + budget(rep.tier, 70, 800), rep.tier == "thorough")
 
 
 def search(rep: Report):
+    windowed_after_merge(rep, Rng(rep.seed * 13 + 5))
     sweep(rep, Rng(rep.seed * 7 + 909), 10, time.time() + 120, True)
 
 
@@ -171,4 +205,5 @@ def replay(payload) -> bool:
     v = examine(spec, dict(rp["cfg"]), rp["how"], ops_from_describe(rp["history"]), ops_from_describe(rp.get("continuation") or []))
     if v is not None:
         print(f"replay: {v[0]}: {v[1]}"[:600])
-    return v is None
+        return False, v[0]          # the runner prints KNOWN-FINDING and exits 0 when this exact signature is recorded
+    return True
